@@ -148,6 +148,22 @@ func (w *World) open() error {
 	conn.SetMaxIdleConns(20)
 	w.sqldb = conn
 	w.Client = ent.NewClient(ent.Driver(entsql.OpenDB("sqlite3", conn)))
+	// an autocommit read: whatever the caller does next, it does on data that may already be
+	// stale, so other tasks get a turn right after the query has returned its result
+	w.Client.Intercept(ent.InterceptFunc(func(next ent.Querier) ent.Querier {
+		return ent.QuerierFunc(func(ctx context.Context, q ent.Query) (ent.Value, error) {
+			v, err := next.Query(ctx, q)
+			if schedLog && err != nil {
+				S.mu.Lock()
+				S.Log = append(S.Log, fmt.Sprintf("    query error %v", err))
+				S.mu.Unlock()
+			}
+			if S != nil && err == nil && ctx.Err() == nil && !queryInTx(q) {
+				S.Yield(ctx, "read")
+			}
+			return v, err
+		})
+	}))
 	w.Faults = faults.NewSet(fmt.Sprintf("sim%d_%d", runCounter, w.restarts))
 	svc := mbgrpc.NewGrpcService(8084, 1, nil, w.Faults, func(_ context.Context, s *grpc.Server, c *ent.Client) error {
 		return services.InitializeGrpcServers(s, c, nil)
@@ -363,4 +379,24 @@ func (w *World) Dump(ignoreSubExpires bool) (string, error) {
 		}
 	}
 	return sb.String(), nil
+}
+
+// queryInTx: does this ent query run on a transaction's driver? (conservative: unknown = yes)
+func queryInTx(q ent.Query) bool {
+	v := reflect.ValueOf(q)
+	if v.Kind() == reflect.Ptr {
+		v = v.Elem()
+	}
+	if v.Kind() != reflect.Struct {
+		return true
+	}
+	c := v.FieldByName("config")
+	if !c.IsValid() {
+		return true
+	}
+	d := c.FieldByName("driver")
+	if !d.IsValid() || d.Kind() != reflect.Interface || d.IsNil() {
+		return true
+	}
+	return strings.Contains(d.Elem().Type().String(), "txDriver")
 }
